@@ -11,7 +11,7 @@ func init() {
 			"(e) every import graph over modules {main,a,b} incl. self imports (thorough: {main,a,b,c} without self imports), cycles through and not through the entry module; " +
 			"every text of (a)-(d) in two roles: as the entry module and as the text the host returns for an imported module; " +
 			"oracle: homescript.Parse and homescript.Analyze (with and without the main-function requirement) return, without Go panic, worker death or hang; " +
-			"inputs matching the pattern of a known fatal defect (lexer error behind `from`, cyclic import graph, all of (d)) are first run in a guarded child process and reported as FATAL:<reason>:<function> instead of being run in-process if the child does not return; " +
+			"inputs matching the pattern of a known fatal defect (lexer error behind `from`, cyclic import graph, all of (d)) are first run in a guarded child process and reported as FATAL:<no-return|stack-exhausted|memory-exhausted>:<function> instead of being run in-process if the child does not return; " +
 			"at most 12 failing cases per (class,tags) and worker are listed, the remainder is counted in notes; distinct = distinct (parse outcome, diagnostics) observations",
 		Assume: []string{
 			"the analyzer host behaves like the harness host (returns module texts promptly, knows no builtin modules)",
